@@ -823,6 +823,7 @@ class C06(Check):
 
     def must_stay_silent(self):
         return [
+            Variant("known-call-value-staged", MOD, "_handle_call", "        return sympy.Float(fn(*model_args))", "        value = fn(*model_args)\n        return sympy.Float(value)", quick=True),
             Variant("xreplace-form", MOD, "fn_to_sympy", "sympy_expr.subs(dict(zip(fn_args, model_args, strict=True)), simultaneous=True)",
                     "sympy_expr.xreplace({sympy.Symbol(k): v for k, v in zip(fn_args, model_args, strict=True)})", quick=True),
             Variant("rename-rest", MOD, "_handle_block", r"\brest\b", "rest_of_body", count=0, regex=True),
